@@ -1307,7 +1307,7 @@ impl<'a> Client<'a> {
                 let it = hd.it.as_mut().unwrap();
                 let mut out = Vec::new();
                 let mut ended = false;
-                for _ in 0..80 {
+                for _ in 0..700 {
                     match it.next() {
                         Some(m) => out.push(m),
                         None => {
